@@ -152,6 +152,9 @@ impl OpenPartitionIndex {
         file: &mut File,
         index: &BTreeMap<PartitionId, PartitionIndexRecord<Vec<PartitionSequenceOffset>>>,
     ) -> Result<(Mphf<PartitionId>, u64), PartitionIndexError> {
+        #[cfg(feature = "verif-hooks")]
+        crate::verif::pause("index-flush:start");
+
         // Collect all keys from the index
         let keys: Vec<PartitionId> = index.keys().copied().collect();
         let n = keys.len() as u64;
